@@ -13,6 +13,7 @@ CONSTANTS
   Inc = FALSE
   Odd = TRUE
   PrintPaths = TRUE
+  NPre = 0
 VIEW View
 INVARIANTS StateMon PathOut
 PROPERTIES StepMon
